@@ -415,7 +415,27 @@ CORPUS_FILES = [
     ({"_mid.scss": '@forward "a" as p-* with ($z: 7 !default);', "_a.scss": "$z: 1 !default; $x: 2 !default;",
       "main.scss": '@use "mid" with ($p-x: 1);'}, "main.scss"),
     ({"_mid.scss": '@forward "a";', "_a.scss": "$z: 1;", "main.scss": '@use "mid"; mid.$nope: 1;'}, "main.scss"),
+    # C01-F7 (round 3, fixed by d9251e4): a forwarded `!default` configuration value taken from an @import-ing file's
+    # variable has no span of its own; assert_configuration_is_empty unwrapped Configuration::first() == None
+    ({"in.scss": '$x: 1; @import "mid"; a { b: $x; c: $y; }', "_mid.scss": '@forward "leaf" with ($x: 2 !default);',
+      "_leaf.scss": "$y: 3; leaf { k: v; }"}, "in.scss"),
 ]
+
+
+def config_projects():
+    """Round 3: every combination of how a configuration value can reach a module that does or does not declare it —
+    importer/user defines the variable or not x @import/@use(with) x @forward with guarded/unguarded/absent x leaf
+    declares it !default / plainly / not at all (three-file projects; the crash class of C01-F7)."""
+    out = []
+    for top in ('$x: 1; @import "mid";', '@import "mid";', '@use "mid" with ($x: 1);', '@use "mid";', '$x: 1; @use "mid";',
+                '$x: null; @import "mid";', '@use "mid" with ($x: null);', '$x: 1; $w: 2; @import "mid";', '@use "mid" with ($x: 1, $w: 2);'):
+        for fw in ('@forward "leaf" with ($x: 2 !default);', '@forward "leaf" with ($x: 2);', '@forward "leaf";',
+                   '@forward "leaf" with ($x: 2 !default, $w: 3 !default);', '@forward "leaf" as p-* with ($x: 2 !default);',
+                   '@use "leaf" with ($x: 2);', '@forward "leaf" show $y with ($x: 2 !default);'):
+            for leaf in ("$y: 3; leaf { k: v; }", "$x: 0 !default; $y: 3; leaf { k: $x; }", "$x: 0; $y: 3; leaf { k: $x; }",
+                         "$x: 0 !default; $w: 0 !default; $y: $x + $w;", ""):
+                out.append(({"in.scss": top + " a { b: c; }", "_mid.scss": fw, "_leaf.scss": leaf}, "in.scss"))
+    return out
 
 OPTION_SETS = [{}, {"style": "compressed"}, {"unicode": False}, {"charset": False}, {"style": "compressed", "unicode": False, "charset": False}]
 
@@ -441,6 +461,8 @@ def search_jobs(ck, tier, cases):
         add("corpus-of-failures", src, o)
     for files, entry in CORPUS_FILES:
         jobs.append(("corpus-of-failures", compile_job(None, files=files, entry=entry, quiet=True)))
+    for files, entry in config_projects():
+        jobs.append(("config-projects", compile_job(None, files=files, entry=entry, quiet=True)))
     # golden corpus with its own options and under every syntax/style/option set
     pick = cases if not quick else rng.sample(cases, 500)
     for c in pick:
